@@ -344,6 +344,9 @@ func (b *wfBuilder) chooseType(i int) {
 	nd := b.nodes[i]
 	var pool []string
 	switch {
+	case nd.needStruct && nd.kind != "struct" && len(nd.binders) == 0:
+		// a parent of field providers may also be a defined pointer type
+		pool = []string{"S", "*S", "*S", "PS"}
 	case nd.kind == "struct" || nd.needStruct:
 		pool = shapesStruct
 	case nd.kind == "bind" || nd.kind == "ivalue":
@@ -403,6 +406,10 @@ func (b *wfBuilder) chooseType(i int) {
 	case "*S":
 		nd.base = b.freshStruct(T)
 		nd.t = Ptr(Named(nd.base))
+	case "PS":
+		// type Q<i> *T<i>: a pointer parent through its underlying type
+		nd.base = b.freshStruct(T)
+		nd.t = Named(b.addDecl(Decl{Name: fmt.Sprintf("Q%d", i), Form: "def", Under: Ptr(Named(nd.base))}))
 	case "generic", "generic2", "ptrgeneric":
 		np := 1
 		args := []*Type{Basic("int")}
@@ -502,7 +509,7 @@ func (b *wfBuilder) chooseType(i int) {
 	// a field node may provide the pointer-to-field form when its parent is a pointer
 	if nd.kind == "field" {
 		par := b.nodes[nd.deps[0]]
-		if par.t.K == "ptr" && !nd.needStruct && len(nd.binders) == 0 && b.pct(40, "fieldptr") {
+		if (par.t.K == "ptr" || par.shape == "PS") && !nd.needStruct && len(nd.binders) == 0 && b.pct(40, "fieldptr") {
 			nd.fieldPtr = true
 			nd.t = Ptr(nd.t)
 		}
@@ -530,7 +537,7 @@ func (b *wfBuilder) placeDecls(i int) {
 	for di := range b.s.Decls {
 		d := &b.s.Decls[di]
 		switch d.Name {
-		case T, fmt.Sprintf("Impl%d", i), fmt.Sprintf("J%d", i), fmt.Sprintf("A%d", i):
+		case T, fmt.Sprintf("Impl%d", i), fmt.Sprintf("J%d", i), fmt.Sprintf("A%d", i), fmt.Sprintf("Q%d", i):
 			d.Pkg = nd.pkg
 		}
 	}
